@@ -74,12 +74,34 @@ def main():
         cases.append(('invalid', rng.choice([0, 32, 40, -3, rng.randint(1, 31)]),
                       rng.choice([0, 13, -1, rng.randint(1, 12), rng.randint(1, 12)]), rng.randint(-50, 3000),
                       rng.choice([1, 5, 70])))
+    # the same start date again and again in one process with growing and shrinking lengths (a result must not depend
+    # on what the process computed before: C14's purity clause, applied to the calendar)
+    for (d, m, y) in ((1, 7, 1999), (27, 2, 2000), (30, 12, 1899), (28, 2, 2100)):
+        for n in (3, 31, 10, 400, 1200, 2, 1500):
+            cases.append(('valid', d, m, y, n))
     lines = []
     for (kind, d, m, y, n) in cases:
         frac = 0.0 if kind == 'valid' else rng.choice([0.0, 0.5, 0.99])
         lines.append(kcase('DateGenerator', [d + (frac if d >= 0 else -frac), float(m), float(y)], [], [[0.0] * n]))
     impl = run_impl(lines)
     model = run_model(lines)
+    # environment independence: the emitted dates are the proleptic Gregorian calendar, not somebody's civil time, so
+    # the process's time zone must not matter; a sample is re-run with the zone database embedded (-tags timetzdata)
+    # far west and far east of Greenwich and must be identical to the plain run
+    build_harness(['owrun'], tags='verif,timetzdata', suffix='-tz')
+    tz_idx = [i for i, cs in enumerate(cases) if cs[0] == 'valid'][::3 if quick else 7]
+    tz_runs = 0
+    for tz in ('America/New_York', 'Pacific/Kiritimati', 'Europe/London'):
+        got = run_lines(os.path.join(HARNESS, 'bin', 'owrun-tz'), [lines[i] for i in tz_idx], env=dict(GOENV, TZ=tz))
+        for i, g in zip(tz_idx, got):
+            tz_runs += 1
+            dz = kresults_agree(parse_kresult(impl[i]), parse_kresult(g))
+            if dz:
+                c.violation('timezone_%s_%d.json' % (tz.replace('/', '_'), i),
+                            {'kind': 'result-depends-on-process-time-zone', 'TZ': tz, 'start': list(cases[i][1:4]), 'steps': cases[i][4],
+                             'difference': dz.replace('impl=', 'TZ-unset=').replace('model=', 'TZ-set='), 'case_line': lines[i],
+                             'replay': 'echo "<case_line>" | TZ=%s harness/bin/owrun-tz' % tz})
+                break
     nonvalid_panics = 0
     for i, (cs, li, lm) in enumerate(zip(cases, impl, model)):
         kind, d, m, y, n = cs
@@ -115,7 +137,7 @@ def main():
                      'thorough: every start of the 1600-1999 cycle) run for n steps through sim.Catalog["DateGenerator"] and through the '
                      'extracted Coq model; non-trivial = run crosses at least one month boundary; plus a malformed stream '
                      '(invalid day/month, fractional parameters) compared model-vs-code only')
-    c.finish(extra_cov={'malformed_cases': sum(1 for x in cases if x[0] != 'valid'), 'malformed_panics_both_sides': nonvalid_panics,
+    c.finish(extra_cov={'time_zone_reruns': tz_runs, 'malformed_cases': sum(1 for x in cases if x[0] != 'valid'), 'malformed_panics_both_sides': nonvalid_panics,
                         'exhaustive': False},
              assumptions=['Go int(float64) on integral parameters modelled as truncation toward zero',
                           'sim.Catalog wrapper (generated Run) is exercised, not modelled, in this check (see C04)'])
